@@ -35,18 +35,19 @@ const modPath = "github.com/pandatix/go-cvss"
 var swapped = map[string]string{
 	"sync":        modPath + "/verifsim/sync",
 	"sync/atomic": modPath + "/verifsim/atomic",
+	"time":        modPath + "/verifsim/time",
+	"runtime":     modPath + "/verifsim/runtime",
+	"math/rand":   modPath + "/verifsim/rand",
 }
 
 // imports library code may not use under the simulator
 var refusedImports = map[string]string{
 	"os":           "process environment / files",
-	"time":         "real clock and timers",
 	"net":          "real sockets",
 	"net/http":     "real sockets",
 	"os/exec":      "processes",
 	"os/signal":    "signals",
-	"runtime":      "real scheduler / GC control",
-	"math/rand":    "unseeded randomness",
+	"runtime/debug": "GC / runtime control",
 	"math/rand/v2": "unseeded randomness",
 	"crypto/rand":  "real randomness",
 	"C":            "cgo",
